@@ -203,12 +203,29 @@ class Opaque:
         return f"<opaque {self.what}>"
 
 
+class SparseF(dict):
+    """field storage of coroutine objects: upvars at 0.., per-variant saved locals at (variant+1)*1000+k,
+    'state' = resume point"""
+
+    def __init__(self, vals=()):
+        super().__init__({i: v for i, v in enumerate(vals)})
+        self["state"] = 0
+
+    def __getitem__(self, k):
+        return dict.get(self, k)
+
+
 UNIT = Agg("()", [])
 
 
 def clone_val(v):
     """structural copy for copy/move of composite values (pointers are shared)"""
     if isinstance(v, Agg):
+        if isinstance(v.f, SparseF):
+            n = SparseF()
+            for k, x in v.f.items():
+                n[k] = clone_val(x)
+            return Agg(v.ty, n)
         return Agg(v.ty, [clone_val(x) for x in v.f])
     if isinstance(v, Enum):
         return Enum(v.ty, v.idx, v.vname, [clone_val(x) for x in v.f])
